@@ -418,6 +418,41 @@ def r20_6(F, R):
                         "mismatch): borders of borders are skipped, so the matcher reports wrong positions for patterns with nested borders" % nm, loc)
 
 
+def r20_8(F, R):
+    from ..cfg import Defs
+    from .common import producers
+    M = "texcraft_stdext::algorithms::substringsearch"
+    R.rule("R20.8", "the streaming matcher's state moves only along the automaton: every assignment to the match length `q` in Search::next is `q + 1` "
+                    "(one more element matched) or a value read out of the prefix function (a border of what was matched); a constant or any other "
+                    "value — e.g. a `q = 0` shortcut on a mismatch — forgets the borders of the partial match and misses matches that start inside it")
+    fn = _one(F, M + "::Search::next")
+    D = Defs(fn)
+    n = 0
+    for bi, b in enumerate(fn.blocks):
+        if b.get("cleanup"):
+            continue
+        for st in b["s"]:
+            if st["k"] != "=" or not st["lhs"]["p"]:
+                continue
+            last = st["lhs"]["p"][-1]
+            if not (isinstance(last, dict) and last.get("n") == "q"):
+                continue
+            n += 1
+            from ..dataflow import rv_operands
+            pr = set()
+            for o in rv_operands(st["rv"]):
+                pr |= producers(fn, D, o)
+            from_prefix = any(tag == "call" and name.endswith("::index") and "usize" in (ty or "") for tag, name, ty in pr)
+            from_q = any(tag == "arg" for tag, name, ty in pr)
+            inst = "Search::next/q#%d" % n
+            if from_prefix or from_q:
+                R.ok("R20.8", inst, "q + 1" if from_q and not from_prefix else "prefix function lookup", fn.loc(st), how="provenance")
+            else:
+                R.violation("R20.8", inst, "Search::next sets the match length to a value that is neither q + 1 nor a prefix-function entry (producers: %s): the "
+                            "borders of the partial match are forgotten, so a match that starts inside it is missed" % sorted({x[0] for x in pr}), fn.loc(st))
+    R.floor("R20.8", "assignments to the match length in Search::next", n, 3)
+
+
 def r20_7(F, R):
     GM = "texcraft_stdext::collections::groupingmap"
     R.rule("R20.7", "replaying the scoped map (iter_all): while IterAll::new walks the groups from the innermost outwards, the value a logged key has "
@@ -456,6 +491,7 @@ def run(F, R, tier):
     r20_7(F, R)
     r20_5(F, R)
     r20_6(F, R)
+    r20_8(F, R)
     r20_4(F, R)
     r20_2(F, R)
     r20_3(F, R)
